@@ -288,7 +288,8 @@ def run(F, R):
     agg = [x for x in walk(bco.trace_local(0)) if x[0] == "agg" and x[2] and x[2].endswith("StateMachine::StateMachine")]
     if R.floor("C08-R4", "StateMachine construction in build()", len(agg), 1):
         names = agg[0][4]
-        cxt = terms.render(bco, agg[0][3][names.index("context")], W, {})
+        from .. import optnorm as _on8
+        cxt = terms.render(bco, _on8.simplify(_on8.inline_awaits(W, bco, agg[0][3][names.index("context")])), W, {})
         R.check("C08-R4", "load-before-first-use", "load(" in cxt and "poll(" in cxt, "context <- awaited Context::load(storage)", "the state machine's context is not the awaited result of Context::load: " + cxt[:200])
         # .. and it is presented as loaded: nothing in build() writes into the loaded context before the machine exists
         edits = []
